@@ -1031,11 +1031,30 @@ def filtered_keys(ctx, interp, fr, e, g, it):
     if not (isinstance(e, (_ast.GeneratorExp, _ast.ListComp)) and isinstance(g.target, _ast.Name)
             and isinstance(e.elt, _ast.Name) and e.elt.id == g.target.id and len(g.ifs) == 1):
         return None
-    if not (isinstance(it, VRef) and ctx.obj(it).kind == 'map'):
-        return None
     t = g.ifs[0]
     if not (isinstance(t, _ast.Compare) and len(t.ops) == 1 and isinstance(t.ops[0], (_ast.In, _ast.NotIn))
             and isinstance(t.left, _ast.Name) and t.left.id == g.target.id):
+        return None
+    if isinstance(it, VRef) and ctx.obj(it).kind == 'slist' and 'bag' in ctx.obj(it).f:
+        # a symbolic LIST filtered by membership in a map: the multiset view is filtered
+        from .ground import All, base_array
+        other = interp.eval(ctx, fr, t.comparators[0])
+        if not (isinstance(other, VRef) and ctx.obj(other).kind == 'map'):
+            return None
+        src, n = ctx.obj(it), ctx.obj(other)
+        role = ctx.roles.arrays.get(base_array(src.f['bag']).get_id()) or \
+            ctx.roles.arrays.get(base_array(n.f['dom']).get_id())
+        if role is None:
+            return None
+        neg = isinstance(t.ops[0], _ast.NotIn)
+        r = new_slist(ctx, src.meta['elemkind'], 'filtered_list', bag=True)
+        o = ctx.obj(r)
+        bag, sb, nd = o.f['bag'], src.f['bag'], n.f['dom']
+        ctx.roles.array(bag, role)
+        keep = (lambda k: z3.Not(z3.Select(nd, k))) if neg else (lambda k: z3.Select(nd, k))
+        ctx.assume(All([role], lambda k: z3.Select(bag, k) == z3.If(keep(k), z3.Select(sb, k), 0)))
+        return r
+    if not (isinstance(it, VRef) and ctx.obj(it).kind == 'map'):
         return None
     other = interp.eval(ctx, fr, t.comparators[0])
     if not (isinstance(other, VRef) and ctx.obj(other).kind == 'map'):
@@ -1378,8 +1397,17 @@ def slist_method(ctx, interp, ref, o, name, args, kwargs, node):
             if 'bag' not in src.f:
                 raise Unsupported('extend with a list without multiset view', node)
             b0, b1 = o.f['bag'], src.f['bag']
-            q = z3.Int(fresh_name('q'))
-            o.f['bag'] = z3.Lambda([q], z3.Select(b0, q) + z3.Select(b1, q))
+            from .ground import All, base_array
+            role = ctx.roles.arrays.get(base_array(b0).get_id()) or \
+                ctx.roles.arrays.get(base_array(b1).get_id())
+            if role is not None:
+                nb = z3.Array(fresh_name('bag'), I, I)
+                ctx.roles.array(nb, role)
+                ctx.assume(All([role], lambda k: z3.Select(nb, k) == z3.Select(b0, k) + z3.Select(b1, k)))
+                o.f['bag'] = nb
+            else:
+                q = z3.Int(fresh_name('q'))
+                o.f['bag'] = z3.Lambda([q], z3.Select(b0, q) + z3.Select(b1, q))
         return NONE
     if name == 'pop' and not args and 'bag' in o.f and 'where' not in o.f:
         nonempty = o.f['len'] > 0
